@@ -535,6 +535,8 @@ def p_pairs(o):
     exe = build_rtc(o)
     o.replay_base = {"sub": "pairs", "bin": "rtc"}
     rt_pass(o, exe, "pairs", [], timeout=sizes(o.tier, 400, 1800))
+    # optimised build: functions with identical bodies may be merged, debug assertions are off
+    nodebug_pass(o, build_rtc(o, profile="nodebug"), "pairs", [], timeout=sizes(o.tier, 400, 1800))
     o.rule = ("all ordered pairs of corpus entries (built-in constructors at nesting <=4, wrappers of wrappers, aliases, hand-written and derived types): ==, !=, cmp both ways, partial_cmp, hash; "
               "declared identity taken from the trait (TypeId::of::<<T as TypeInfo>::Identity>()), not from MetaType; coherence of definitions and of registration order within each identity class; "
               "transitivity over all triples of a 150-entry subset. Non-trivial: a != b as corpus entries; distinct = distinct ordered pairs.")
@@ -821,6 +823,14 @@ def p_rejects(o):
                 o.inconclusive.append("coverage floor missed: no negative program of group %s" % g)
     finally:
         shutil.rmtree(d, ignore_errors=True)
+    # run-time half: compiling builder programs with repeated fields(..) calls never yield a mixed variant
+    try:
+        exe = build_rt()
+        rt_pass(o, exe, "builders", ["--cases", sizes(o.tier, 50_000, 2_000_000), "--max-secs", 60], timeout=600, prefix="runtime_", name="C20-builders")
+        if o.counter("repeated_fields_calls", "runtime_") <= 0:
+            o.inconclusive.append("coverage floor missed: the run-time builder scripts did not run")
+    except Inconclusive as e:
+        o.inconclusive.append(str(e)[:300])
     o.rule = ("negative programs, one ill-formed construct each, compiled on their own (rustc --emit=metadata), each with a positive twin that differs only in that construct and must compile: builders without path / index / type, "
               "named among unnamed and unnamed among named in compile-time and portable form, every public way to obtain a builder typestate including Default::default(); derive on unions, unknown attributes, repeated "
               "bounds / skip_type_params / capture_docs / crate, invalid capture_docs values, bounds(..) leaving a parameter unbound. Verdict: negative must be rejected with an error whose primary span lies in the construct. "
@@ -918,6 +928,12 @@ def p_features(o):
     compare("base", on, "docs on")
     compare("base_nodocs", list(ok), "docs stripped")
     compare("base_retained_nodocs", list(ok), "after retain(id % 3 == 0), docs stripped")
+    compare("base_reversed_first_nodocs", list(ok), "roots in reverse order (first registry of the process), docs stripped")
+    compare("base_again_nodocs", list(ok), "the same roots in a second registry of the same thread, docs stripped")
+    for fs in ok:
+        if ok[fs].get("base_again") != ok[fs].get("base"):
+            o.violations.append({"key": "C15/second-registry-differs", "msg": "with features {%s} a second registry built from the same roots on the same thread has different bytes" % ",".join(fs), "case": {"features": list(fs)}})
+            o.violation_count += 1
     bv = [fs for fs in ok if "bit-vec" in fs]
     compare("bitvec", [fs for fs in bv if "docs" not in fs], "BitVec corpus, docs off")
     compare("bitvec", [fs for fs in bv if "docs" in fs], "BitVec corpus, docs on")
@@ -940,6 +956,7 @@ def p_schema(o):
     o.replay_base = {"sub": "schema", "features": ["schema"]}
     # the schema must accept the documents under every feature set that has `schema` on: with and without bit-vec (and docs)
     configs = [("bitvec_", ("schema",), []), ("nobitvec_", ("schema",), ["--no-default-features"])]
+    configs.append(("nodebug_", ("schema",), ["--profile", "nodebug"]))
     if o.tier == "thorough":
         configs.append(("docs_", ("schema", "docs"), []))
     for pre, feats, extra in configs:
@@ -1061,6 +1078,33 @@ def p_ident(o):
     exe2 = build_rt(profile="nodebug")
     rt_pass(o, exe2, "ident", ["--cases", sizes(o.tier, 100_000, 1_000_000), "--maxlen", sizes(o.tier, 5, 6)], timeout=sizes(o.tier, 300, 1500), prefix="nodebug_", name="C18-ident-nodebug")
     o.need(["accepted", "rejected", "new_accepted", "new_rejected"], "nodebug_")
+    # path construction must not depend on the feature set either: a fixed probe list through the fingerprint binary, no_std vs std
+    try:
+        d = gen_corpus(o.seed, o.tier)
+        probes = {}
+        with Lock("fp"):
+            ensure_fresh(base_env())
+            for fs in ((), ("std",)):
+                env = base_env()
+                env["VERIF_GEN"] = d
+                env["CARGO_TARGET_DIR"] = os.path.join(TARGET, "fp0")
+                p = subprocess.run(["cargo", "build", "--offline", "-q", "-p", "fp"] + (["--features", ",".join(fs)] if fs else []), cwd=HARNESS, env=env, stdout=subprocess.PIPE, stderr=subprocess.PIPE, text=True)
+                if p.returncode != 0:
+                    o.inconclusive.append("fingerprint binary does not build for the path probes (%s): %s" % (fs, p.stderr[-300:]))
+                    break
+                r = subprocess.run([os.path.join(env["CARGO_TARGET_DIR"], "debug", "fp")], stdout=subprocess.PIPE, stderr=subprocess.PIPE, text=True, timeout=300)
+                line = [l for l in r.stdout.splitlines() if l.startswith("paths ")]
+                probes[fs] = line[0] if line else None
+        if len(probes) == 2:
+            o.evaluations += 2
+            if probes[()] is None or probes[()] != probes[("std",)]:
+                a = bytes.fromhex((probes[()] or "paths bytes=").split("bytes=")[1]).decode(errors="replace")
+                b = bytes.fromhex((probes[("std",)] or "paths bytes=").split("bytes=")[1]).decode(errors="replace")
+                o.violations.append({"key": "C18/path-construction-depends-on-features", "msg": "Path::new / from_segments over a fixed probe list give different outcomes without and with the std feature:\n  no_std: %s\n  std:    %s" % (a[:600], b[:600]), "case": {"no_std": a, "std": b}})
+                o.violation_count += 1
+            o.extra["feature_probe"] = "100 (ident, module) probes + 6 segment lists through a no_std and a std build: identical outcomes"
+    except Inconclusive as e:
+        o.inconclusive.append(str(e)[:300])
     o.rule = ("exhaustive: every string of length <= L (L=6 quick, 7 thorough) over the class-representative alphabet {a,Z,_,7,r,#,:,space,-,e-acute,superscript-two} as a single segment (through iterators with exact / inexact / no size hint); "
               "every segment list of length <= 3 over a 40-string pool; Path::new over (40 idents x 1649 modules); seeded new_with_replace tables. "
               "Oracle: explicit DFA for (r#)?[A-Za-z_][A-Za-z0-9_]*. The workload runs in the dev profile and again in a profile without debug assertions. distinct = distinct inputs; all inputs with >=1 segment are non-trivial.")
